@@ -370,7 +370,14 @@ def run_case(case):
             if again != text:
                 consequence = (kid2 is not None or conv_known)
                 _tz2, obs2, prob2 = read_generated(again)
-                weak_ok = not prob2 and {o.offset_to for o in obs2} == {o.offset_to for o in obs}
+                # same observance kinds: every (kind, offset, name) of one generation occurs in the other - except that the
+                # observance in force at the window start may turn STANDARD (finding C13-first-observance-kind)
+                first_key = None
+                if seg_at(segs, lo_utc)[3]:
+                    f0 = [o for o in obs if o.offset_from == o.offset_to and lo in o.onsets_local]
+                    first_key = (f0[0].offset_to, f0[0].tzname) if f0 else None
+                kinds = lambda oo: {(("?" if (o.offset_to, o.tzname) == first_key else o.kind), o.offset_to, o.tzname) for o in oo}  # noqa: E731
+                weak_ok = not prob2 and kinds(obs2) == kinds(obs)
                 known = (kid2 or "C13-onset-in-new-offset") if (consequence and weak_ok) else None
                 if known is None and not prob2:
                     # the window starts inside a DAYLIGHT observance: its TZOFFSETFROM is unknown and written as TZOFFSETTO, so
@@ -455,7 +462,7 @@ def run(ctx):
     zi = sorted(k for k in zoneinfo.available_timezones() if k != "localtime")
     pz = sorted(pytz.all_timezones)
     windows = list(WINDOWS) + ([SHORT[ctx.seed % len(SHORT)]] if ctx.quick else ALL_WINDOWS[1:] + SHORT)
-    ctx.rule = ("E-dom: every zone id (%d zoneinfo, %d pytz; quick tier: all zoneinfo zones, a seed-rotated third of the pytz zones on the default window; regeneration (4) for a seed-rotated third of the zoneinfo zones) x both providers x windows %s: well-formedness, RFC onset "
+    ctx.rule = ("E-dom: every zone id (%d zoneinfo, %d pytz; quick tier: all zoneinfo zones, a seed-rotated third of the pytz zones on the default window; regeneration (4) for every zone on the default window) x both providers x windows %s: well-formedness, RFC onset "
                 "interpretation and the converted zone vs the source at every point of the partition induced by source breakpoints "
                 "and generated onsets (+-1s and interior points), regeneration. non-trivial = zone with at least one transition in the "
                 "window. Windows whose first / last date is the local date of the zone's own first transition of 2019 (thorough: 1975, 1995, 2019; quick: a seed-rotated half of the zoneinfo zones). Two-year windows starting on 1 July / 15 January (inside northern / southern daylight time) for every zone (quick: all zoneinfo zones, a seed-rotated eighth of the pytz zones). E-hist: for 10 zones (incl. those on which the providers' databases disagree) generate / switch provider / generate / switch back / generate, every result judged against the then-active provider's zone." % (len(zi), len(pz), [f"{a}..{b}" for a, b in windows][:4]))
@@ -471,7 +478,7 @@ def run(ctx):
                     if ctx.quick and provider == "pytz" and (wi > 0 or ki % 3 != ctx.seed % 3):
                         continue  # quick tier: pytz generation costs ~1 s per zone; a seed-rotated third, default window
                     yield ("z", provider, key, (a.year, a.month, a.day), (b.year, b.month, b.day),
-                           (not ctx.quick) or provider == "pytz" or (ki % 3 == ctx.seed % 3 and wi == 0))
+                           (not ctx.quick) or provider == "pytz" or wi == 0)
 
     ctx.explore("zones x windows", gen, run_case, recheck=False)
 
